@@ -75,6 +75,27 @@ func (c *FnCtx) alloc(st *State, t types.Type, heapAlloc bool) string {
 	return ref
 }
 
+// atom names an integer term by a declared constant (not a macro), so that
+// quantifier patterns such as (select row (+ off k)) match it syntactically.
+func (c *FnCtx) atom(prefix, term string) string {
+	if isSimpleName(term) {
+		return term
+	}
+	if _, lit := isNumLit(term); lit {
+		return term
+	}
+	if c.atoms == nil {
+		c.atoms = map[string]string{}
+	}
+	if n, ok := c.atoms[term]; ok {
+		return n
+	}
+	n := c.declare(prefix, "Int")
+	c.assumeRaw(eq(n, term))
+	c.atoms[term] = n
+	return n
+}
+
 func isSimpleName(s string) bool {
 	for _, r := range s {
 		if r == '(' || r == ' ' {
@@ -288,7 +309,7 @@ func (c *FnCtx) indexAddr(fr *frame, st *State, t *ssa.IndexAddr) Val {
 			// slice of arrays: flattened, stride = array length
 			return Val{K: kPtr, T: t.Type(), Ref: x.Ref, Idx: mul(add(x.Off, i.S), num(at.Len())), Root: at.Elem()}
 		}
-		return Val{K: kPtr, T: t.Type(), Ref: x.Ref, Idx: add(x.Off, i.S), Root: el}
+		return Val{K: kPtr, T: t.Type(), Ref: x.Ref, Idx: add(x.Off, c.atom("i", i.S)), Root: el}
 	case kPtr:
 		c.nilCheck(st, x, t.Pos(), "index")
 		at := pointee(x).Underlying().(*types.Array)
@@ -332,7 +353,7 @@ func (c *FnCtx) sliceOp(fr *frame, st *State, t *ssa.Slice) Val {
 			mx = x.Cap
 			c.oblige(st, "bounds", "slice bounds", and(le("0", lo), le(lo, hi), le(hi, x.Cap)), t.Pos(), "")
 		}
-		r := Val{K: kSlice, T: t.Type(), Root: x.Root, Ref: x.Ref, Off: add(x.Off, lo), Len: sub(hi, lo), Cap: sub(mx, lo)}
+		r := Val{K: kSlice, T: t.Type(), Root: x.Root, Ref: x.Ref, Off: c.atom("off", add(x.Off, lo)), Len: sub(hi, lo), Cap: sub(mx, lo)}
 		return c.nameVal(r, "sl")
 	case kPtr:
 		c.nilCheck(st, x, t.Pos(), "slice")
